@@ -33,12 +33,17 @@ def laplaceVariance (eps delta sens : α) : α := 2 * sq (sens / (eps - Transc.l
 
 /-! ### truncated Laplace (`shape` = `self.sensitivity / (self.epsilon - np.log(1 - self.delta))`) -/
 
-/-- `LaplaceTruncated.bias` for a given `shape` -/
+/-- `TruncationAndFoldingMixin._truncate` -/
+def truncateV (lower upper v : α) : α := if upper < v then upper else if v < lower then lower else v
+
+/-- `LaplaceTruncated.bias` for a given `shape` (`if shape == 0: return self._truncate(value) - value`) -/
 def truncBiasOf (shape lower upper v : α) : α :=
+  if feq shape 0 then truncateV lower upper v - v else
   shape / 2 * (Transc.exp ((lower - v) / shape) - Transc.exp ((v - upper) / shape))
 
-/-- `LaplaceTruncated.variance` for a given `shape` -/
+/-- `LaplaceTruncated.variance` for a given `shape` (`if shape == 0: return 0.0`) -/
 def truncVarianceOf (shape lower upper v : α) : α :=
+  if feq shape 0 then 0 else
   let v0 := sq v + shape * (lower * Transc.exp ((lower - v) / shape) - upper * Transc.exp ((v - upper) / shape))
   let v1 := v0 + sq shape * (2 - Transc.exp ((lower - v) / shape) - Transc.exp ((v - upper) / shape))
   v1 - sq (truncBiasOf shape lower upper v + v)
@@ -54,23 +59,34 @@ def foldBiasOf (shape lower upper v : α) : α :=
   shape * (Transc.exp ((lower - v) / shape) - Transc.exp ((v - upper) / shape)) /
     (Transc.exp ((lower - upper) / shape) + 1)
 
+/-- the whole method: `if shape == 0: return self._fold(value) - value`; `folded` = `self._fold(value)` is supplied by
+the caller (the folding map itself is C12's model) -/
+def foldBiasAt (shape lower upper v folded : α) : α :=
+  if feq shape 0 then folded - v else foldBiasOf shape lower upper v
+
 /-- the expression `LaplaceFolded.bias` used before commit 21336e0 (it overflowed to `inf/inf` for wide domains);
 kept to state that the two are the same function over ℝ -/
 def foldBiasOld (shape lower upper v : α) : α :=
   shape * (Transc.exp ((lower + upper - 2 * v) / shape) - 1) /
     (Transc.exp ((lower - v) / shape) + Transc.exp ((upper - v) / shape))
 
-def foldBias (eps delta sens lower upper v : α) : α := foldBiasOf (laplaceScale eps delta sens) lower upper v
+def foldBias (eps delta sens lower upper v folded : α) : α :=
+  foldBiasAt (laplaceScale eps delta sens) lower upper v folded
 
 /-! ### bounded-domain Laplace (`s` = the calibrated `self._scale`) -/
 
-/-- `LaplaceBoundedDomain.bias` -/
+/-- Python `max(a, b)`: keeps the first argument unless the second is strictly larger -/
+def pyMax2 (a b : α) : α := if a < b then b else a
+
+/-- `LaplaceBoundedDomain.bias` (`if self._scale == 0: return max(min(value, self.upper), self.lower) - value`) -/
 def bdBiasOf (s lower upper v : α) : α :=
+  if feq s 0 then pyMax2 (pyMin2 v upper) lower - v else
   ((s - lower + v) / 2 * Transc.exp ((lower - v) / s) - (s + upper - v) / 2 * Transc.exp ((v - upper) / s)) /
     (1 - Transc.exp ((lower - v) / s) / 2 - Transc.exp ((v - upper) / s) / 2)
 
-/-- `LaplaceBoundedDomain.variance` -/
+/-- `LaplaceBoundedDomain.variance` (`if self._scale == 0: return 0.0`) -/
 def bdVarianceOf (s lower upper v : α) : α :=
+  if feq s 0 then 0 else
   let v0 := sq v
   let v1 := v0 - (Transc.exp ((lower - v) / s) * sq lower + Transc.exp ((v - upper) / s) * sq upper) / 2
   let v2 := v1 + s * (lower * Transc.exp ((lower - v) / s) - upper * Transc.exp ((v - upper) / s))
